@@ -9,6 +9,7 @@ C01 — ordinary cell hash and depth are the TON representation hash and depth.
 (any bit length 0..1023, 0..4 references, any shape).
 -/
 import TonVerif.Proofs.OrdCell
+import TonVerif.Proofs.Binding
 
 namespace TonVerif.Properties.C01
 open TonVerif TonVerif.Model TonVerif.Proofs.OrdCell
@@ -48,6 +49,39 @@ theorem c01_eq_iff_hash (a b : CellInfo) : a.pyEq b = true ↔ a.hash = b.hash :
 theorem c01_pyhash_iff_hash (a b : CellInfo) (ha : Bytes.WF a.hash) (hb : Bytes.WF b.hash)
     (hl : a.hash.length = b.hash.length) : a.pyHash = b.pyHash ↔ a.hash = b.hash :=
   pyHash_iff a b ha hb hl
+
+/-! ## the representation determines the cell -/
+
+/-- the standard representation `d1 d2 ++ padded data ++ child depths ++ child hashes` of an ordinary cell (≤ 4
+references, 32-byte hashes) is injective: it determines the BIT STRING (the completion-tag padding is invertible given
+`d2`, for every length 0..1023 and beyond), the number of references, and every child's depth field and hash. -/
+theorem c01_repr_injective (H : Bytes → Bytes) (h32 : ∀ x, (H x).length = 32) (b1 b2 : Bits) (r1 r2 : List Cell)
+    (hr1 : r1.length ≤ 4) (hr2 : r2.length ≤ 4)
+    (h : [Spec.d1 r1.length false 0, Spec.d2 b1.length] ++ Spec.dataBytes b1 ++ ordDepthBytes r1 ++ ordHashes H r1
+       = [Spec.d1 r2.length false 0, Spec.d2 b2.length] ++ Spec.dataBytes b2 ++ ordDepthBytes r2 ++ ordHashes H r2) :
+    b1 = b2 ∧ r1.length = r2.length ∧ r1.map (fun c => Spec.be2 (ordDepth c)) = r2.map (fun c => Spec.be2 (ordDepth c)) ∧
+      r1.map (ordHash H) = r2.map (ordHash H) := by
+  rw [ordDepthBytes_eq, ordDepthBytes_eq, ordHashes_eq, ordHashes_eq] at h
+  obtain ⟨en, _, _, eb, ed, eh⟩ := TonVerif.Proofs.Binding.repr_injective _ _ _ _ _ _ b1 b2 _ _ _ _ hr1 hr2
+    (by simp) (by simp) (by simp) (by simp)
+    (by intro x hx; simp only [List.mem_map] at hx; obtain ⟨c, _, rfl⟩ := hx; simp [Spec.be2])
+    (by intro x hx; simp only [List.mem_map] at hx; obtain ⟨c, _, rfl⟩ := hx; simp [Spec.be2])
+    (by intro x hx; simp only [List.mem_map] at hx; obtain ⟨c, _, rfl⟩ := hx; exact ordHash_length H h32 c)
+    (by intro x hx; simp only [List.mem_map] at hx; obtain ⟨c, _, rfl⟩ := hx; exact ordHash_length H h32 c) h
+  exact ⟨eb, en, ed, eh⟩
+
+/-- hence: two ordinary cells with the same hash, when `H` does not collide on their two representations, have the same
+bit string, the same number of references and pairwise equal child hashes. -/
+theorem c01_hash_binding (H : Bytes → Bytes) (h32 : ∀ x, (H x).length = 32) (k1 k2 : Int) (b1 b2 : Bits) (r1 r2 : List Cell)
+    (hr1 : r1.length ≤ 4) (hr2 : r2.length ≤ 4)
+    (nocoll : ∀ x y, H x = H y →
+      x = [Spec.d1 r1.length false 0, Spec.d2 b1.length] ++ Spec.dataBytes b1 ++ ordDepthBytes r1 ++ ordHashes H r1 →
+      y = [Spec.d1 r2.length false 0, Spec.d2 b2.length] ++ Spec.dataBytes b2 ++ ordDepthBytes r2 ++ ordHashes H r2 → x = y)
+    (hh : ordHash H (.mk k1 b1 r1) = ordHash H (.mk k2 b2 r2)) :
+    b1 = b2 ∧ r1.length = r2.length ∧ r1.map (ordHash H) = r2.map (ordHash H) := by
+  rw [ordHash, ordHash] at hh
+  obtain ⟨e1, e2, _, e4⟩ := c01_repr_injective H h32 b1 b2 r1 r2 hr1 hr2 (nocoll _ _ hh rfl rfl)
+  exact ⟨e1, e2, e4⟩
 
 /-! Non-vacuity: a 5-bit cell with two references to leaf cells satisfies the hypotheses. -/
 def sample : Cell := .mk (-1) [true, false, true, true, false] [.mk (-1) [] [], .mk (-1) [true] []]
